@@ -67,3 +67,19 @@ TUNINGS = {
     "t4_1_8_2d": (4, 1, 8, 2, 2, 20), # 2-D blocking with 2x2 blocks
     "t2_4_4": (2, 4, 4, 3, 3, 20),
 }
+
+
+def symm_family(n, count, seed=12345, density=3):
+    """deterministic family of structurally symmetric patterns with full diagonal (for SymmetricMode / etree-shape reach cases)"""
+    out = []; x = seed
+    for _ in range(count):
+        e = [(i, i) for i in range(n)]
+        for i in range(n):
+            for j in range(i):
+                x = (1103515245 * x + 12345) & 0x7fffffff
+                if (x >> 8) % 10 < density: e += [(i, j), (j, i)]
+        out.append(pat_bits(n, n, set(e)))
+    return list(dict.fromkeys(out))
+
+TUNINGS["t_sym"] = (4, 6, 8, 20, 20, 20)     # relaxed supernodes up to 6 columns: heap_relax_snode / relax_snode subtree logic
+TUNINGS["t_dflt"] = (8, 10, 12, 20, 20, 20)  # close to the library defaults (relax 10)
